@@ -8,10 +8,11 @@ META_OFFSETS = [0, 4, 8, 12, 16] + [0x138, 0x13c, 0x140, 0x1a0, 0x140, 0x144, 0x
 def build_image(rng, hostile=0, cycles=False, focus=None):
     ffs, intl, dirc = rng.random() < 0.5, rng.random() < 0.3, rng.random() < 0.4
     if focus == "cache": dirc = True
-    kind = rng.choice(["dd", "dd", "hd"])
-    n = 1760 if kind == "dd" else 3520
+    kind = rng.choice(["dd", "dd", "hd", "hdf"]) if not (hostile or cycles) else rng.choice(["dd", "dd", "hd"])
+    # hardfiles (no partition table): even and odd block counts, one and several bitmap pages, root where AmigaDOS puts it
+    n = 1760 if kind == "dd" else 3520 if kind == "hd" else rng.choice([3600, 3601, 4001, 4066, 8000, 8001, 8131])
     img = iw.Image(nblocks=n, ffs=ffs, intl=intl, dirc=dirc, rng=rng, placement=rng.choice(["random", "sequential"]),
-                   chain_order=rng.choice(["random", "reverse", "append"]), garbage=rng.random() < 0.7)
+                   chain_order=rng.choice(["random", "reverse", "append"]), garbage=rng.random() < 0.7, amiga_root=(kind == "hdf"))
     kids = iw.random_tree(rng, intl=intl or dirc, links=rng.random() < 0.5, dbs=img.dbs, nfiles=rng.randint(1, 9), ndirs=rng.randint(0, 5),
                           maxsize=60000 if kind == "dd" else 120000)
     data = bytearray(img.build(kids))
